@@ -8,6 +8,7 @@ cycle check is monitored against an own DFS on deliberately cyclic netlists."""
 from __future__ import annotations
 
 import functools
+import itertools
 import random
 
 from vt import monitor, netgen, refsem, wf
@@ -23,7 +24,7 @@ ANCHOR_FILES = ['cirbo/core/circuit/circuit.py', 'cirbo/core/circuit/validation.
 ASSUMPTIONS = ['own reachability closure / DFS over the operand relation is the definition of reachable / cyclic']
 REQUIRED = {'mon:top_sort.checked': 200, 'mon:dfs.checked': 500, 'mon:bfs.checked': 500,
             'mon:check_circuit_has_no_cycles.checked': 100, 'cycle:raised_expected': 20, 'cycle:clean_expected': 20,
-            'cycle:unreachable_cycle': 3, 'peeking_hooks': 200, 'cycle:explicit_start_lists': 200, 'composed_circuits': 100}
+            'cycle:unreachable_cycle': 3, 'peeking_hooks': 200, 'cycle:explicit_start_lists': 200, 'composed_circuits': 100, 'lockstep_traversals': 200, 'nested_traversals': 100}
 
 CUR = {'ctx': None, 'case': None}
 
@@ -427,6 +428,28 @@ def check_case(case, ctx):
                              cls='mode:%s/%s' % (mode, 'inv' if inverse else 'fwd'),
                              sample={'net': case['net'], 'mode': mode, 'inverse': inverse, 'start': st,
                                      'reachable': len(reach), 'gates': len(labels)} if nontrivial and st else None)
+        # traversals are lazy generators: two of them consumed in lockstep (also on two circuits), and one started from
+        # inside a hook of another - each must still yield exactly its own reachable set
+        if labels:
+            import copy as _copy
+            with monitor.suspended():
+                other = _copy.deepcopy(c)
+            pairs = [(c.dfs(), c.bfs(inverse=True)), (c.bfs(), other.dfs()), (c.dfs(inverse=True), c.dfs())]
+            for g1, g2 in pairs:
+                for _x, _y in itertools.zip_longest(g1, g2):
+                    pass
+                ctx.count('lockstep_traversals')
+
+            def nested(g, s_):
+                if g.label == labels[len(labels) // 2]:
+                    _consume(c.bfs())
+                    try:
+                        validation.check_circuit_has_no_cycles(c)
+                    except Exception:
+                        pass
+            _consume(c.dfs(on_enter_hook=nested))
+            _consume(c.bfs(inverse=True, on_enter_hook=nested))
+            ctx.count('nested_traversals')
         validation.check_circuit_has_no_cycles(c)
     except Exception as e:
         ctx.unexpected('traversals', e, case)
@@ -484,7 +507,7 @@ def _plain(l):
 
 def gen_case(rng, spec):
     shape = rng.choice(netgen.SHAPES)
-    net = netgen.rand_net(rng, shape=shape, max_in=5, max_g=spec.get('max_g', 14), max_arity=4, const_operands=False)
+    net = netgen.rand_net(rng, shape=shape, max_in=5, min_in=0 if rng.random() < 0.05 else 1, max_g=spec.get('max_g', 14), max_arity=4, const_operands=False)
     case = {'kind': 'random', 'shape': shape, 'net': netgen.describe(net), 'rseed': rng.getrandbits(32),
             'shuffle': rng.random() < 0.3, 'edited': rng.random() < 0.3,
             'compose': rng.getrandbits(32) if rng.random() < 0.25 else None}
